@@ -166,6 +166,19 @@ A_PUBLIC = {"alib": {"pub_procs": {"asub", "afun", "agen", "area"}, "pub_types":
 # text found only on the page of A that documents (module, entity)
 A_MARK = {("alib6", "scale_it"): "scale_it of alib6", ("alib", "shape_t"): "public type", ("alib3", "shape_t"): "another shape_t of alib3", ("alib", "asub"): "public subroutine", ("alib3", "asub"): "another asub of alib3"}
 
+B9_SRC = """module bmod9
+  !! binds a procedure of the library to a type that extends the library's type
+  use alib
+  implicit none
+  type, extends(shape_t) :: b9_t
+    !! extends the library type
+    integer :: extra9
+  contains
+    procedure, nopass :: run9 => asub
+    !! bound to the library's procedure
+  end type b9_t
+end module bmod9
+"""
 B8_SRC = """module bmod8
   !! uses the undocumented entities of alib7
   use alib7
@@ -425,10 +438,11 @@ def run_history(st: Stats, case):
         reftext3 = {"none": "", "plain": "", "ext": "see [[alib3(extmodule)]]"}[refs]
         b_files["src/bmod3.f90"] = B3_SRC.format(refs3=reftext3)
         b_files["src/bmod8.f90"] = B8_SRC
+        b_files["src/bmod9.f90"] = B9_SRC
         if clash:
             b_files["src/own.f90"] = CLASH_SRC[clash]
         externals = {"alib": ext, "alib_again": ext} if hist == "two-names" else {"alib": ext}
-        b_opts = dict(external=externals, project="bproj", display=["public", "private", "protected"])
+        b_opts = dict(external=externals, project="bproj", display=["public", "private", "protected"], **(dict(hide_undoc=True) if hist == "b-hide-undoc" else {}))
         # FORD started from another directory than the project file's: paths in the project file stay relative to the file
         (root / "elsewhere").mkdir(exist_ok=True)
         b_cwd = {"cwd-parent": root, "cwd-elsewhere": root / "elsewhere"}.get(hist)
@@ -502,7 +516,7 @@ def run_history(st: Stats, case):
                     bad += 1
                     st.violation("external-entity-of-wrong-module" if wrong else "external-entity-not-linked", stratum, dict(feats, entity=key[1], page=page, module=key[0]), inp,
                                  dict(page=page, links_to=wrong or "nothing in A"), f"the page of {key[0]}'s {key[1]}")
-        if damage is None:
+        if damage is None and hist != "b-hide-undoc":  # (bmod8 documents nothing: hide_undoc prunes its variables and its caller)
             # distinct external entities stay distinct, with or without a page of their own in A
             m8 = [m for m in b.project.modules if m.name == "bmod8"]
             got8 = {v.name: (getattr(v.proto[0], "name", v.proto[0]) or "").lower() if v.proto else None for v in (m8[0].variables if m8 else [])}
@@ -846,6 +860,7 @@ def gen_cases(tier):
         for refs in ("none", "plain"):
             yield ("default", None, form, None, None, refs, "b-twice")
             yield ("default", None, form, None, None, refs, "two-names")
+            yield ("default", None, form, None, None, refs, "b-hide-undoc")
             yield ("default", None, form, None, None, refs, "cwd-parent")
             yield ("default", None, form, None, None, refs, "cwd-elsewhere")
             for a1, a2 in (("default", "private"), ("private", "default"), ("nosrc", "alpha")):
